@@ -475,12 +475,15 @@ func TestC03_Order(t *testing.T) { theT = t; prop.Check(t) }
 type InitScript struct {
 	InitDurMs int      `json:"init_dur_ms"`
 	Followers []string `json:"followers"` // methods sent right behind initialize, without waiting
+	// InitdDurMs: how long the server's InitializedHandler (run for notifications/initialized) takes
+	InitdDurMs int `json:"initd_dur_ms,omitempty"`
 }
 
 func genInit(rt *rapid.T) InitScript {
 	return InitScript{
-		InitDurMs: rapid.SampledFrom([]int{0, 1, 1000, 60000}).Draw(rt, "dur"),
-		Followers: rapid.SliceOfN(rapid.SampledFrom([]string{"notifications/initialized", "tools/list", "ping", "tools/call", "notifications/progress"}), 1, 6).Draw(rt, "followers"),
+		InitDurMs:  rapid.SampledFrom([]int{0, 1, 1000, 60000}).Draw(rt, "dur"),
+		InitdDurMs: rapid.SampledFrom([]int{0, 0, 5, 3000}).Draw(rt, "initd_dur"),
+		Followers:  rapid.SliceOfN(rapid.SampledFrom([]string{"notifications/initialized", "tools/list", "ping", "tools/call", "notifications/progress"}), 1, 6).Draw(rt, "followers"),
 	}
 }
 
@@ -495,6 +498,11 @@ func runInitInBubble(s InitScript) (res vt.Result) {
 	rcv := &recorder{}
 	server := mcp.NewServer(&mcp.Implementation{Name: "srv", Version: "1"}, &mcp.ServerOptions{
 		ProgressNotificationHandler: func(context.Context, *mcp.ProgressNotificationServerRequest) {},
+		InitializedHandler: func(context.Context, *mcp.InitializedRequest) {
+			if s.InitdDurMs > 0 {
+				time.Sleep(time.Duration(s.InitdDurMs) * time.Millisecond)
+			}
+		},
 	})
 	mcp.AddTool(server, &mcp.Tool{Name: "t"}, func(ctx context.Context, req *mcp.CallToolRequest, in toolIn) (*mcp.CallToolResult, any, error) {
 		return &mcp.CallToolResult{}, nil, nil
@@ -532,7 +540,7 @@ func runInitInBubble(s InitScript) (res vt.Result) {
 		peer.Send(fmt.Sprintf(`{"jsonrpc":"2.0",%s"method":%s,"params":%s}`, id, mj, params))
 	}
 	synctest.Wait()
-	time.Sleep(time.Duration(s.InitDurMs)*time.Millisecond + time.Second)
+	time.Sleep(time.Duration(s.InitDurMs)*time.Millisecond + time.Duration(len(s.Followers)*s.InitdDurMs)*time.Millisecond + time.Second)
 	synctest.Wait()
 	inits := rcv.byMethod("initialize")
 	if len(inits) != 1 || !inits[0].ended {
@@ -543,6 +551,46 @@ func runInitInBubble(s InitScript) (res vt.Result) {
 	for _, e := range rcv.recs {
 		if e.method != "initialize" && e.start < inits[0].end {
 			res.Failf("handler of %s started (clock %d, t=%v) before the initialize handler finished (clock %d, t=%v)", e.method, e.start, e.startT.Format("05.000"), inits[0].end, inits[0].endT.Format("05.000"))
+		}
+	}
+	// every notification behind initialize is dispatched synchronously as well: nothing that was SENT after
+	// it starts before its handler has finished (the k-th record of a method belongs to the k-th message of
+	// that method; earlier calls may start late, they are asynchronous)
+	recOf := func(idx int) *rec {
+		ord := 0
+		for _, m := range s.Followers[:idx] {
+			if m == s.Followers[idx] {
+				ord++
+			}
+		}
+		k := 0
+		for _, e := range rcv.recs {
+			if e.method == s.Followers[idx] {
+				if k == ord {
+					return e
+				}
+				k++
+			}
+		}
+		return nil
+	}
+	for i, m := range s.Followers {
+		if !strings.HasPrefix(m, "notifications/") {
+			continue
+		}
+		e := recOf(i)
+		if e == nil {
+			continue
+		}
+		for j := i + 1; j < len(s.Followers); j++ {
+			later := recOf(j)
+			if later == nil {
+				continue
+			}
+			if !e.ended || later.start < e.end {
+				res.Failf("handler of follower %d (%s) started (t=%v) before the handler of the earlier follower %d (%s) had finished (t=%v)", j, later.method, later.startT.Format("05.000"), i, e.method, e.endT.Format("05.000"))
+				break
+			}
 		}
 	}
 	n := len(rcv.recs)
